@@ -76,7 +76,7 @@ def r1_keys(ctx, chk, rule="C12.1"):
         chk.violation(rule, f.where(Li.node), "the mode loop runs over `%s`; specification: pruned first, then unpruned ([True, False])" % show(Li.source), expected="[True, False]",
                       found=show(Li.source), construct="run_games mode list")
         return None
-    if Lo.has_break or Li.has_break or Lo.has_return or Li.has_return or Lo.cont != FALSE or Li.cont != FALSE or not Lo.whole:
+    if Lo.has_break or Li.has_break or Lo.has_return or Li.has_return or not Lo.whole:
         chk.violation(rule, f.where(Lo.node), "a loop of run_games can be left early (break / continue / return): later games or modes get no entry", expected="every game, both modes",
                       found="early exit", construct="run_games early exit")
         return None
@@ -332,10 +332,47 @@ def _flag_var(s):
     for v, init in Li.init.items():
         if is_const(init) and isinstance(init[1], bool) and v in Li.update and mentions(Li.update[v], lambda x: x[0] == "raised"):
             return v
+    # no boolean: `error = None` per game, the text of the error once the pruned run has failed, asked only `is None`
+    for v, init in Li.init.items():
+        if init == C(None) and v in Li.update and mentions(Li.update[v], lambda x: x[0] == "raised") and _none_tests_only(s, v):
+            after = Li.update[v]
+            if mentions(after, lambda x: x[0] in ("fstr", "strcat") or (x[0] == "call" and x[1] in ("str", "repr", "format"))):
+                return v
     for v, init in Li.init.items():
         if init == TRUE or (is_const(init) and init[1] is True):
             return v
     return None
+
+
+ERROR_TEXT = "\x00<error text of the failed run>"
+
+
+def _none_tests_only(s, v):
+    """The carried variable v (None until a run fails, then the error text) is only ever asked `is None` / `is not None`."""
+    acc = ("acc", s.Li.id, v)
+    uses = 0
+    bad = []
+
+    def walk(x, parent):
+        nonlocal uses
+        if isinstance(x, tuple) and x:
+            if x == acc:
+                uses += 1
+                if not (parent is not None and parent[0] == "cmp" and parent[1] in ("is", "isnot", "==", "!=") and C(None) in (parent[2], parent[3])):
+                    bad.append(parent)
+                return
+            for y in x:
+                walk(y, x if (isinstance(x[0], str)) else parent)
+    for var, u in s.Li.update.items():
+        if var == v:
+            # its own update may keep it (`x if ... else acc`)
+            walk(subst(u, lambda y: C(None) if False else None), None)
+        else:
+            walk(u, None)
+    for e in s.Li.effects:
+        walk(e, None)
+    bad2 = [b for b in bad if not (b is not None and b[0] == "ite" and acc in (b[2], b[3]))]
+    return not bad2
 
 
 def _tid(s):
@@ -367,6 +404,8 @@ def flag_states(s):
     good = s.Li.init[flag][1]
     after = scenario(s, s.Li.update[flag], good, True)
     bad = after[1] if is_const(after) and isinstance(after[1], bool) else None
+    if good is None and bad is None and (after[0] in ("fstr", "strcat") or (after[0] == "call" and after[1] in ("str", "repr", "format")) or (is_const(after) and isinstance(after[1], str))):
+        bad = ERROR_TEXT          # the flag is `None` / the text of the error: some string, which is not None
     return good, bad
 
 
